@@ -34,6 +34,20 @@ def step (_ : Unit) (line : String) : Unit × String :=
           commaSign mult r]
         " ".intercalate (forms.map txt ++ forms.map (fun f => resStr (parse f)) ++ ["lib-ok"])
       | _, _ => "bad-op"
+    | ["cfg", _, d] =>
+      match cfg? d with
+      | some (places, mult) => toString places ++ " " ++ toString mult
+      | none => "bad-op"
+    | ["ext", _, d, which] =>
+      match cfg? d with
+      | some (_, mult) =>
+        let r : Int := if which == "min" then -(2^127) else 2^127 - 1
+        toString r ++ " " ++ txt (toStr128 mult r)
+      | none => "bad-op"
+    | ["commai", v] =>
+      match v.toInt? with
+      | some z => bytesHex (commaNum (intStr z))
+      | none => "bad-op"
     | ["parse", ty, d, h] =>
       match cfg? d, hexBytes? h with
       | some (places, mult), some s =>
